@@ -189,7 +189,9 @@ def mirror(wt, rt, path=""):
             j += 1
         elif k == "loop":
             # reader: [count_var] init_list ; for/while
+            divisor = None
             if u[0] == "count_var":
+                divisor = u[2]
                 j += 1
                 u = r[j]
             if u[0] != "init_list" or j + 1 >= len(r) or r[j + 1][0] not in ("for", "while_remaining"):
@@ -199,6 +201,20 @@ def mirror(wt, rt, path=""):
             d = _mirror_loop(t, loop, rb, here)
             if d:
                 return d
+            if divisor is not None:
+                # count = remaining / divisor is the number of elements written only if every element occupies
+                # exactly `divisor` bytes
+                elems = [x for x in rb if x[0] == "append"]
+                core = _core(elems[0][2])[0] if elems else None
+                size = None
+                what = "?"
+                if core and core[0] == "prim":
+                    size, what = W.INT_WIDTH.get(core[1]), core[1]
+                elif core and core[0] == "struct":
+                    size, what = (W.DECLARED.get(core[1]) or {}).get("fixed"), "struct %s" % core[1]
+                if size is None or str(size) != str(divisor):
+                    return ("%s: the element count is computed as remaining / %s, but an element (%s) %s"
+                            % (here, divisor, what, "has no fixed size" if size is None else "occupies %s bytes" % size))
             j += 1
         elif k == "dummy_guard":
             if u[0] != "dummy_guard":
